@@ -90,7 +90,7 @@ inductive AV where
   | none
   | str (s : Str)
   | strs (l : List Str)
-  | dec (coeff : Nat) (exp : Int)      -- Decimal ≥ 0: coeff × 10^exp
+  | dec (neg : Nat) (coeff : Nat) (exp : Int)      -- Decimal: (-1)^neg × coeff × 10^exp
   deriving Repr, DecidableEq, Inhabited
 
 structure Obj where
